@@ -156,7 +156,10 @@ func CompareValues(left r.Element, right r.Element, verb uint8) (bool, error) {
 				if err != nil {
 					return false, err
 				}
-				return cmpVal, nil
+				// every entry has to match - not only the first one visited
+				if !cmpVal {
+					return false, nil
+				}
 			}
 			return true, nil
 		}
